@@ -18,7 +18,7 @@ C08  (a) every CPU x every 16-bit prefix x fixed tail: NUL-terminated text insid
      (b) disasm_range over fixed blocks prints exactly the chain of instruction addresses start, start+len, ...
      up to the end; (c) naken_util -disasm over images in several page geometries lists every instruction.
 """
-import re, os, json, collections, subprocess
+import re, os, json, collections, subprocess, zlib
 import nvlib, gen_src as S
 
 NUM = re.compile(r"(?<![A-Za-z0-9_$.'])(0x[0-9a-fA-F]+|\d+)(?![A-Za-z0-9_.'])")
@@ -93,74 +93,46 @@ def cpu_table(ctx):
 
 
 # ---------------------------------------------------------------------------------------------
-# C06
+# statements and their variants (shared by C01, C06, C07)
 # ---------------------------------------------------------------------------------------------
-def c06_lines():
-    lines, meta = [], []
-    for cpu in S.cpus():
-        for st in S.statements(cpu):
-            for m in NUM.finditer(st):
-                t = m.group(1)
-                v = int(t, 16) if t.startswith("0x") else int(t)
-                lines.append("asmq %s %s" % (cpu, nvlib.hexs(st)))
-                meta.append((cpu, st, m.start(1), None, v))
-                for k in KS:
-                    st2 = st[:m.start(1)] + ("0x%x" % (v + (1 << k))) + st[m.end(1):]
-                    lines.append("asmq %s %s" % (cpu, nvlib.hexs(st2)))
-                    meta.append((cpu, st, m.start(1), k, v + (1 << k)))
-    return lines, meta
+# Values put in the place of every numeric literal of a corpus statement: the field boundaries 2^k-1, 2^k, -2^k,
+# -2^k-1, the 32-bit edges, and far PC-relative targets around the load address (A0 +- 2^k, and 2 inside that).
+KB = (3, 4, 5, 6, 7, 8, 11, 12, 15, 16)
+BOUNDARY = [f for k in KB for f in ((1 << k) - 1, 1 << k, -(1 << k), -(1 << k) - 1)] + \
+           [0, 1, 0x7fffffff, 0x80000000, 0xffffffff, -0x80000000, -0x7fffffff]
+FAR = [x for k in (8, 11, 12, 16, 20, 21, 22, 24, 25)
+       for x in (A0 + (1 << k), A0 - (1 << k), A0 + (1 << k) - 2, A0 - (1 << k) + 2) if x >= 0]
+ALLVALS = BOUNDARY + FAR
+QUICK_PICKS = 6
 
 
-def c06_correspondence(ctx, corr):
-    return
+def _lit(t, w):
+    """value w written in the style of literal token t"""
+    if t.startswith("0x"):
+        return ("-0x%x" % -w) if w < 0 else "0x%x" % w
+    return "%d" % w
 
 
-def c06_oracle(ctx, orc):
-    lines, meta = c06_lines()
-    ans = ctx.impl(lines)
-    hits = collections.OrderedDict()
-    base = None
-    accepted = 0
-    for (cpu, st, pos, k, v), a in zip(meta, ans):
-        orc["cases"] += 1
-        if a.startswith("DIED"):
-            orc["failures"].append({"sig": "C06:sweep-crash:%s:%s" % (cpu, st), "input": st, "expected": "ok/err",
-                                    "observed": a, "what": "assembler crashed on operand value 0x%x" % v})
-            continue
-        if k is None:
-            base = a
-            continue
-        if a.startswith("ok"):
-            accepted += 1
-            if a == base:
-                hits.setdefault((cpu, st, pos), []).append(k)
-    for (cpu, st, pos), ks in hits.items():
-        orc["failures"].append({"sig": "C06:trunc:%s:%s@%d" % (cpu, st, pos), "input": ".%s / %s" % (cpu, st),
-                                "expected": "different bytes or an error",
-                                "observed": "same bytes as the original for the literal + 2^k, k in %s" % ks,
-                                "what": "operand silently truncated", "replay_line": "asmq %s %s" % (cpu, nvlib.hexs(st))})
-    orc["stats"]["sweep_c06"] = {"statements": len(set((m[0], m[1]) for m in meta)), "variants": len(lines),
-                                 "variants_accepted": accepted, "truncations": len(hits)}
-
-
-# ---------------------------------------------------------------------------------------------
-# statements and their variants (C01)
-# ---------------------------------------------------------------------------------------------
 def variants(st, thorough):
-    """the statement itself and copies with one numeric literal replaced (deterministic)"""
-    out = [st]
-    for m in NUM.finditer(st):
+    """[(text, pos, value)]: the statement itself (pos None) and copies with ONE numeric literal replaced.
+    thorough: every value of ALLVALS plus neighbours of the literal; quick: the neighbours and QUICK_PICKS values of
+    ALLVALS chosen by a hash of the statement text (a subset of the thorough set; nothing depends on the seed)."""
+    out = [(st, None, None)]
+    h = zlib.crc32(st.encode("latin-1"))
+    for li, m in enumerate(NUM.finditer(st)):
         t = m.group(1)
         v = int(t, 16) if t.startswith("0x") else int(t)
-        vals = [v + 1, v ^ 2]
+        near = [v + 1, v ^ 2, v - 1 if v > 0 else 3, v * 2]
         if thorough:
-            vals += [0, 1, v - 1 if v > 0 else 3, v * 2, 0x7f, 0x80, 0xff, 0x100, 0x7fff, 0x8000, 0xffff]
+            vals = near + ALLVALS
+        else:
+            vals = near[:2] + [ALLVALS[(h + 7 * li + 13 * j) % len(ALLVALS)] for j in range(QUICK_PICKS)]
         seen = set([v])
         for w in vals:
-            if w in seen or w < 0:
+            if w in seen:
                 continue
             seen.add(w)
-            out.append(st[:m.start(1)] + ("0x%x" % w if t.startswith("0x") else "%d" % w) + st[m.end(1):])
+            out.append((st[:m.start(1)] + _lit(t, w) + st[m.end(1):], m.start(1), w))
     return out
 
 
@@ -197,68 +169,229 @@ def walk_bytes(ctx, items):
     return res
 
 
+def round_trip(ctx, thorough):
+    """assemble every corpus statement and its variants at A0, walk the disassembler over the emitted bytes,
+    assemble every printed text again at its address.
+    returns a list of records {cpu, st, text, pos, value, status, bytes, walk: (kind, detail), pieces: [(off, bytes,
+    text, answer)]} (status: "ok" | "ok@" | "err" | "DIED ...")"""
+    lines, recs = [], []
+    for cpu in corpus_cpus():
+        for st in S.statements(cpu):
+            for (v, pos, w) in variants(st, thorough):
+                lines.append("asm1 %s %x - %s" % (cpu, A0, nvlib.hexs(v)))
+                recs.append({"cpu": cpu, "st": st, "text": v, "pos": pos, "value": w})
+    ans = ctx.impl(lines)
+    items = []
+    for i, (r, a) in enumerate(zip(recs, ans)):
+        r["status"] = a.split()[0] if not a.startswith("DIED") else a[:160]
+        r["bytes"] = bytes.fromhex(a.split()[1]) if a.startswith("ok ") else None
+        r["walk"], r["pieces"] = None, []
+        if r["bytes"] is not None:
+            items.append((i, r["cpu"], A0, r["bytes"]))
+    walked = walk_bytes(ctx, items)
+    lines2, meta2 = [], []
+    for (i, cpu, addr, b) in items:
+        recs[i]["walk"] = walked[i]
+        if walked[i][0] == "ok":
+            for off, n, txt in walked[i][1]:
+                lines2.append("asm1 %s %x - %s" % (cpu, A0 + off, txt.hex() or "-"))
+                meta2.append((i, off, b[off:off + n], txt))
+    ans2 = ctx.impl(lines2)
+    for (i, off, b, txt), a in zip(meta2, ans2):
+        recs[i]["pieces"].append((off, b, txt, a))
+    return recs
+
+
+def piece_verdict(b, a):
+    """round-trip verdict of one disassembled piece: same | rejected | crash | diff"""
+    if a.startswith("err"):
+        return "rejected"
+    if a.startswith("ok ") and bytes.fromhex(a.split()[1]) == b:
+        return "same"
+    if a.startswith("DIED"):
+        return "crash"
+    return "diff"
+
+
+# ---------------------------------------------------------------------------------------------
+# C01
+# ---------------------------------------------------------------------------------------------
 def c01_correspondence(ctx, corr):
     return
 
 
 def c01_oracle(ctx, orc):
-    thorough = not ctx.quick()
+    recs = round_trip(ctx, not ctx.quick())
+    fails = collections.OrderedDict()
+
+    def fail(r, kind, exp, obs):
+        key = (r["cpu"], kind, r["st"])
+        if key not in fails:
+            fails[key] = {"sig": "C01:sweep:%s:%s:%s" % key, "input": ".%s / %s" % (r["cpu"], r["text"]),
+                          "expected": exp, "observed": obs, "what": "all-CPU round-trip sweep: " + kind,
+                          "replay_line": "asm1 %s %x - %s" % (r["cpu"], A0, nvlib.hexs(r["text"]))}
+
+    accepted = exact = same = rej = 0
+    for r in recs:
+        orc["cases"] += 1
+        if r["status"].startswith("DIED"):
+            fail(r, "asm-crash", "ok/err", r["status"])
+        if r["bytes"] is None:
+            continue
+        accepted += 1
+        kind, det = r["walk"]
+        if kind != "ok":
+            fail(r, kind, "the disassembler consumes exactly the emitted bytes " + r["bytes"].hex(), det)
+            continue
+        exact += 1
+        for off, b, txt, a in r["pieces"]:
+            orc["cases"] += 1
+            v = piece_verdict(b, a)
+            if v == "same":
+                same += 1
+            elif v == "rejected":
+                rej += 1
+            elif v == "crash":
+                fail(r, "reasm-crash", "ok/err", a[:160])
+            else:
+                fail(r, "diff", "bytes %s again (or a rejection)" % b.hex(),
+                     "%s disassembles to '%s', which assembles to %s" % (b.hex(), txt.decode("latin-1"), a))
+    orc["failures"].extend(fails.values())
+    orc["stats"]["sweep_c01"] = {"cpus": len(corpus_cpus()), "statements_and_variants": len(recs), "accepted": accepted,
+                                 "walk_exact": exact, "texts_reassembled_same": same, "texts_rejected": rej,
+                                 "failing_statements": len(fails)}
+    orc["distinct_nontrivial"] = orc.get("distinct_nontrivial", 0) + accepted
+
+
+# ---------------------------------------------------------------------------------------------
+# C06
+# ---------------------------------------------------------------------------------------------
+def c06_lines():
     lines, meta = [], []
     for cpu in corpus_cpus():
         for st in S.statements(cpu):
-            for v in variants(st, thorough):
-                lines.append("asm1 %s %x - %s" % (cpu, A0, nvlib.hexs(v)))
-                meta.append((cpu, st, v))
+            for m in NUM.finditer(st):
+                t = m.group(1)
+                v = int(t, 16) if t.startswith("0x") else int(t)
+                lines.append("asmq %s %s" % (cpu, nvlib.hexs(st)))
+                meta.append((cpu, st, m.start(1), None, v))
+                for k in KS:
+                    st2 = st[:m.start(1)] + ("0x%x" % (v + (1 << k))) + st[m.end(1):]
+                    lines.append("asmq %s %s" % (cpu, nvlib.hexs(st2)))
+                    meta.append((cpu, st, m.start(1), k, v + (1 << k)))
+    return lines, meta
+
+
+def c06_correspondence(ctx, corr):
+    return
+
+
+def numbers(txt):
+    """the numbers of a disassembly text (0x.., $.., ..h, decimal; a leading '-' or '#-' counts as the sign)"""
+    out = []
+    for m in NUMTOK.finditer(txt):
+        t = m.group(1)
+        try:
+            if t.startswith(b"0x"):
+                v = int(t, 16)
+            elif t.startswith(b"$"):
+                v = int(t[1:], 16)
+            elif t.endswith(b"h"):
+                v = int(t[:-1], 16)
+            else:
+                v = int(t)
+        except ValueError:
+            continue
+        if m.start(1) > 0 and txt[m.start(1) - 1:m.start(1)] == b"-":
+            v = -v
+        out.append(v)
+    return out
+
+
+def same_value(p, w):
+    """p and w are spellings of one operand value: equal, or the signed and the unsigned reading of the same k-bit
+    pattern whose top bit is set (-1 and 0xff, 0xfffffffe and -2, ...), 3 <= k <= 32"""
+    if p == w:
+        return True
+    lo, hi = min(p, w), max(p, w)
+    if lo >= 0:
+        return False
+    for k in range(3, 33):
+        if hi - lo == (1 << k) and (1 << (k - 1)) <= hi < (1 << k):
+            return True
+    return False
+
+
+def c06_oracle(ctx, orc):
+    # (1) a literal N and N + 2^k are never accepted with the same encoding
+    lines, meta = c06_lines()
     ans = ctx.impl(lines)
-    items = []
-    fails = collections.OrderedDict()
-
-    def fail(cpu, kind, st, v, exp, obs):
-        key = (cpu, kind, st)
-        if key not in fails:
-            fails[key] = {"sig": "C01:sweep:%s:%s:%s" % (cpu, kind, st), "input": ".%s / %s" % (cpu, v),
-                          "expected": exp, "observed": obs, "what": "all-CPU round-trip sweep: " + kind,
-                          "replay_line": "asm1 %s %x - %s" % (cpu, A0, nvlib.hexs(v))}
-
+    hits = collections.OrderedDict()
+    base = None
     accepted = 0
-    for i, ((cpu, st, v), a) in enumerate(zip(meta, ans)):
+    for (cpu, st, pos, k, v), a in zip(meta, ans):
         orc["cases"] += 1
         if a.startswith("DIED"):
-            fail(cpu, "asm-crash", st, v, "ok/err", a[:160])
-        elif a.startswith("ok "):
-            accepted += 1
-            items.append((i, cpu, A0, bytes.fromhex(a.split()[1])))
-    walked = walk_bytes(ctx, items)
-    lines2, meta2 = [], []
-    exact = 0
-    for (i, cpu, addr, b) in items:
-        cpu, st, v = meta[i]
-        kind, det = walked[i]
-        if kind != "ok":
-            fail(cpu, kind, st, v, "the disassembler consumes exactly the emitted bytes " + b.hex(), det)
+            orc["failures"].append({"sig": "C06:sweep-crash:%s:%s" % (cpu, st), "input": st, "expected": "ok/err",
+                                    "observed": a, "what": "assembler crashed on operand value 0x%x" % v})
             continue
-        exact += 1
-        for off, n, txt in det:
-            lines2.append("asm1 %s %x - %s" % (cpu, A0 + off, txt.hex() or "-"))
-            meta2.append((i, b[off:off + n], txt))
-    ans2 = ctx.impl(lines2)
-    same = rej = 0
-    for (i, b, txt), a in zip(meta2, ans2):
-        cpu, st, v = meta[i]
+        if k is None:
+            base = a
+            continue
+        if a.startswith("ok"):
+            accepted += 1
+            if a == base:
+                hits.setdefault((cpu, st, pos), []).append(k)
+    for (cpu, st, pos), ks in hits.items():
+        orc["failures"].append({"sig": "C06:trunc:%s:%s@%d" % (cpu, st, pos), "input": ".%s / %s" % (cpu, st),
+                                "expected": "different bytes or an error",
+                                "observed": "same bytes as the original for the literal + 2^k, k in %s" % ks,
+                                "what": "operand silently truncated", "replay_line": "asmq %s %s" % (cpu, nvlib.hexs(st))})
+    # (2) an accepted boundary value is the value that was encoded: where the listing of the original statement shows
+    # its literal, the listing of the variant shows the variant's value (or its signed/unsigned alias), and the listed
+    # text assembles to the same bytes again (a value that spills into a neighbouring field changes one of the two)
+    recs = round_trip(ctx, not ctx.quick())
+    shows = {}        # (cpu, st, pos) -> the listing of the original statement shows the literal at pos
+    base_nums = {}
+    for r in recs:
+        if r["pos"] is None and r["walk"] and r["walk"][0] == "ok":
+            base_nums[(r["cpu"], r["st"])] = [n for off, n_, txt in r["walk"][1] for n in numbers(txt)]
+    altered = collections.OrderedDict()
+    checked = 0
+    for r in recs:
+        if r["pos"] is None or r["bytes"] is None or not r["walk"] or r["walk"][0] != "ok":
+            continue
         orc["cases"] += 1
-        if a.startswith("err"):
-            rej += 1
-        elif a.startswith("ok ") and bytes.fromhex(a.split()[1]) == b:
-            same += 1
-        elif a.startswith("DIED"):
-            fail(cpu, "reasm-crash", st, v, "ok/err", a[:160])
-        else:
-            fail(cpu, "diff", st, v, "bytes %s again (or a rejection)" % b.hex(),
-                 "%s disassembles to '%s', which assembles to %s" % (b.hex(), txt.decode("latin-1"), a))
-    orc["failures"].extend(fails.values())
-    orc["stats"]["sweep_c01"] = {"cpus": len(S.cpus()), "statements_and_variants": len(lines), "accepted": accepted,
-                                 "walk_exact": exact, "texts_reassembled_same": same, "texts_rejected": rej,
-                                 "failing_statements": len(fails)}
+        key = (r["cpu"], r["st"], r["pos"])
+        if key not in shows:
+            m = NUM.match(r["st"], r["pos"])
+            t = m.group(1)
+            v = int(t, 16) if t.startswith("0x") else int(t)
+            shows[key] = any(same_value(n, v) for n in base_nums.get((r["cpu"], r["st"]), []))
+        why = None
+        if shows[key]:
+            checked += 1
+            nums = [n for off, n_, txt in r["walk"][1] for n in numbers(txt)]
+            if not any(same_value(n, r["value"]) for n in nums):
+                why = "operand %d (0x%x) accepted, emitted %s, listed as '%s': another value" % (
+                    r["value"], r["value"] & 0xffffffff, r["bytes"].hex(),
+                    "; ".join(txt.decode("latin-1") for off, n_, txt in r["walk"][1]))
+        if why is None:
+            for off, b, txt, a in r["pieces"]:
+                if piece_verdict(b, a) == "diff":
+                    why = "operand %d accepted, emitted %s, listed as '%s', which assembles to %s" % (
+                        r["value"], b.hex(), txt.decode("latin-1"), a)
+                    break
+        if why is not None and key not in altered:
+            altered[key] = {"sig": "C06:sweep:%s:altered:%s@%d" % key, "input": ".%s / %s" % (r["cpu"], r["text"]),
+                            "expected": "the operand value is encoded exactly (listing shows it, listing re-assembles to the same bytes) or rejected",
+                            "observed": why, "what": "operand value altered by the encoder",
+                            "replay_line": "asm1 %s %x - %s" % (r["cpu"], A0, nvlib.hexs(r["text"]))}
+    orc["failures"].extend(altered.values())
+    orc["stats"]["sweep_c06"] = {"statements": len(set((m[0], m[1]) for m in meta)), "variants": len(lines),
+                                 "variants_accepted": accepted, "truncations": len(hits),
+                                 "boundary_variants": len(recs), "boundary_variants_value_checked": checked,
+                                 "altered": len(altered)}
     orc["distinct_nontrivial"] = orc.get("distinct_nontrivial", 0) + accepted
 
 
@@ -286,6 +419,11 @@ def normalise(txt):
     return b" ".join(NUMTOK.sub(rep, txt).lower().replace(b",", b" , ").split())
 
 
+def shape(txt):
+    """the instruction without its numbers: mnemonic, registers, punctuation"""
+    return b" ".join(NUMTOK.sub(b"#", txt).lower().replace(b",", b" , ").split()).decode("latin-1")
+
+
 def mnemonic(txt):
     p = txt.split()
     return p[0].decode("latin-1") if p else ""
@@ -295,20 +433,87 @@ def c07_correspondence(ctx, corr):
     return
 
 
+# Input sets of the exhaustive decode -> encode -> decode pass: (tag, address, tail, offset of the 16-bit pattern, k).
+# quick: the first 2 instructions of every shape per 8192 patterns; thorough: every distinct instruction, and a
+# second tail.  (quick is a subset of thorough: same patterns, k-limited)
+def c07_configs(thorough):
+    if thorough:
+        return [("", A0, TAIL, 0, 0), ("@2", A0, TAIL, 2, 0), ("@t2", A0, TAIL2, 0, 0)]
+    return [("", A0, TAIL, 0, 2), ("@2", A0, TAIL, 2, 2)]
+
+
+RT_CHUNK = 8192
+
+
+def c07_prefix_pass(ctx, orc, fails):
+    cpus = cpu_table(ctx)
+    tot = collections.Counter()
+    for tag, addr, tail, off, k in c07_configs(not ctx.quick()):
+        sel = [c for c, b in cpus if off == 0 or MAXLEN.get(c, 0) >= 4]
+        # chunk-major order: neighbouring work items belong to different CPUs (even load of the parallel shards)
+        work = [(c, fr) for fr in range(0, 65536, RT_CHUNK) for c in sel]
+        ans = ctx.impl(["rtxb %s %x %s %d %d %d %d" % (c, addr, tail, fr, fr + RT_CHUNK, off, k) for c, fr in work])
+        for (c, fr), a in zip(work, ans):
+            if not a.startswith("n="):
+                fails.setdefault((c, "harness-died", tag), {
+                    "sig": "C07:sweep:%s:harness-died%s" % (c, tag), "input": ".%s patterns %x.. offset %d" % (c, fr, off),
+                    "expected": "an answer", "observed": a[:160], "what": "harness died in the prefix pass"})
+                continue
+            d = dict(x.split("=", 1) for x in a.split())
+            for key in ("n", "uniq", "acc", "same", "more", "unexplored"):
+                tot[key] += int(d[key])
+            orc["cases"] += int(d["uniq"])
+            if int(d["unexplored"]) or int(d["more"]):
+                fails.setdefault((c, "unexplored", tag), {
+                    "sig": "C07:sweep:%s:unexplored%s" % (c, tag), "input": ".%s patterns %x.. offset %d" % (c, fr, off),
+                    "expected": "every pattern is processed", "observed": "unexplored=%s more=%s" % (d["unexplored"], d["more"]),
+                    "what": "so many crashes/hangs (or differing re-encodings) that the pass gave up on part of the range"})
+            if d["rec"] == "-":
+                continue
+            for rec in d["rec"].split(";"):
+                f = rec.split(",")
+                pat = int(f[0], 16)
+                bb = bytes.fromhex(tail)
+                bb = bb[:off] + bytes([pat >> 8, pat & 0xff]) + bb[off:]
+                rl = "disx %s %x %s" % (c, addr, bb.hex())
+                if len(f) == 2:
+                    key = (c, "asm-" + f[1], "%04x" % pat)
+                    fails.setdefault(key, {"sig": "C07:sweep:%s:asm-%s%s:%04x" % (c, f[1], tag, pat), "input": ".%s bytes %s at 0x%x" % (c, bb.hex(), addr),
+                                           "expected": "the assembler accepts or rejects the disassembly text",
+                                           "observed": "assembler/disassembler %s" % f[1], "what": "crash or hang while assembling a disassembly text",
+                                           "replay_line": rl})
+                    continue
+                t1, b2, t2 = nvlib.unhex(f[1]), nvlib.unhex(f[2]), nvlib.unhex(f[3])
+                tot["other_bytes"] += 1
+                if normalise(t1) == normalise(t2):
+                    continue
+                key = (c, shape(t1), shape(t2))
+                fails.setdefault(key, {"sig": "C07:sweep:%s:%s->%s" % key, "input": ".%s bytes %s at 0x%x = '%s'" % (c, bb.hex(), addr, t1.decode("latin-1")),
+                                       "expected": "re-assembled bytes disassemble to the same instruction",
+                                       "observed": "assembled to %s = '%s'" % (b2.hex(), t2.decode("latin-1")),
+                                       "what": "all-CPU decode->encode->decode sweep (16-bit patterns)", "replay_line": rl})
+    return dict(tot)
+
+
 def c07_oracle(ctx, orc):
     thorough = not ctx.quick()
+    fails = collections.OrderedDict()
+    # (1) byte strings from the corpus: encodings of the statements and of their boundary variants, single-bit flips
     lines, meta = [], []
     for cpu in corpus_cpus():
         for st in S.statements(cpu):
-            lines.append("asm1 %s %x - %s" % (cpu, A0, nvlib.hexs(st)))
-            meta.append((cpu, st))
+            for (v, pos, w) in variants(st, thorough):
+                lines.append("asm1 %s %x - %s" % (cpu, A0, nvlib.hexs(v)))
+                meta.append((cpu, st, pos))
     ans = ctx.impl(lines)
     words = collections.OrderedDict()
-    for (cpu, st), a in zip(meta, ans):
+    for (cpu, st, pos), a in zip(meta, ans):
         if not a.startswith("ok "):
             continue
         b = bytes.fromhex(a.split()[1])
-        words[(cpu, b)] = st
+        words.setdefault((cpu, b), st)
+        if pos is not None:
+            continue
         nbits = min(len(b), 4) * 8
         h = sum(b) + len(st)
         flips = range(nbits) if thorough else sorted(set((h + 5 * j) % nbits for j in range(4)))
@@ -331,7 +536,6 @@ def c07_oracle(ctx, orc):
         meta2.append((cpu, b[:n], txt))
     ans2 = ctx.impl(lines2)
     lines3, meta3 = [], []
-    fails = collections.OrderedDict()
     acc = 0
     for (cpu, b, txt), a in zip(meta2, ans2):
         if a.startswith("DIED"):
@@ -358,15 +562,17 @@ def c07_oracle(ctx, orc):
             txt2 = t.encode("latin-1") if isinstance(t, str) else t
         if normalise(txt2) == normalise(txt):
             continue
-        key = (cpu, mnemonic(txt), mnemonic(txt2))
+        key = (cpu, shape(txt), shape(txt2))
         fails.setdefault(key, {"sig": "C07:sweep:%s:%s->%s" % key, "input": ".%s bytes %s = '%s'" % (cpu, b.hex(), txt.decode("latin-1")),
                                "expected": "re-assembled bytes disassemble to the same instruction",
                                "observed": "assembled to %s = '%s'" % (b2.hex(), txt2.decode("latin-1")),
                                "what": "all-CPU decode->encode->decode sweep", "replay_line": "disx %s %x %s" % (cpu, A0, b.hex())})
+    # (2) every 16-bit pattern of every CPU
+    pp = c07_prefix_pass(ctx, orc, fails)
     orc["failures"].extend(fails.values())
-    orc["stats"]["sweep_c07"] = {"byte_strings": len(keys), "texts_accepted": acc, "reassembled_to_other_bytes": len(lines3),
-                                 "failing_classes": len(fails)}
-    orc["distinct_nontrivial"] = orc.get("distinct_nontrivial", 0) + acc
+    orc["stats"]["sweep_c07"] = {"corpus_byte_strings": len(keys), "texts_accepted": acc, "reassembled_to_other_bytes": len(lines3),
+                                 "prefix_pass": pp, "failing_classes": len(fails)}
+    orc["distinct_nontrivial"] = orc.get("distinct_nontrivial", 0) + acc + pp.get("acc", 0)
 
 
 # ---------------------------------------------------------------------------------------------
